@@ -370,7 +370,10 @@ Plan gen_plan(const Profile &pf, uint64_t seed) {
             if (o.kind != OP_CLOSE && x.chance(0.25)) {
                 switch (o.kind) {
                     case OP_SRC: o.src = weird_id(o.src); break;
-                    case OP_SIG: { int c = (int) x.below(5); if (c == 0) o.sig = weird_id(o.sig); else if (c == 1) o.src = weird_id(o.src); else if (c == 2) o.sigtype = (int) x.pick(std::vector<int>{0, 1, 2, 7, 255});
+                    case OP_SIG: { int c = (int) x.below(6);
+                                   if (c == 5) { static const uint32_t codes[] = {0x00000000u, 0x00000104u, 0x00000304u, 0x00082004u, 0x00000501u, 0x00008001u, 0x00002008u, 0xffffffffu, 0x00001003u | 0x40u, 0x00081001u, 0x00042003u};
+                                                 o.dtx = codes[x.below(11)]; if (o.dtx == 0x00081001u) o.dtype = DT_I16; if (o.dtx == 0x00042003u) o.dtype = DT_U32; break; }
+                                   if (c == 0) o.sig = weird_id(o.sig); else if (c == 1) o.src = weird_id(o.src); else if (c == 2) o.sigtype = (int) x.pick(std::vector<int>{0, 1, 2, 7, 255});
                                    else { int f = (int) x.range(0, 6); o.p[f] = extreme[x.below(15)]; if (x.chance(0.3)) { int f2 = (int) x.range(1, 4); o.p[f2] = extreme[x.below(15)]; } } break; }
                     case OP_FSR: { int c = (int) x.below(4); if (c == 0) o.sig = weird_id(o.sig); else if (c == 1) o.n = 0; else if (c == 2) o.n = x.range(1, 300000); else o.d = x.range(-100000, 100000); break; }
                     case OP_OMIT: o.sig = weird_id(o.sig); o.en = (int) x.pick(std::vector<int>{0, 1, 2, 255, -1}); break;
